@@ -111,7 +111,7 @@ register("C19", "props.c19", ["ValidaProofs.C19"], 2500, 60000,
          "45% one definite error injected into a well-formed condition / part / path / rule spec (unknown datum kind, pre-processor, "
          "callable, type name, suffix, part type, cast type, part argument; wrong arity / argument shape; several keys; missing "
          "field), 55% 1-3 random structural mutations; distinct = (parser, injected error class, outcome); non-trivial = rejected")
-register("C08", "props.c08", ["ValidaProofs.C08"], 600, 12000,
+register("C08", "props.c08", ["ValidaProofs.C08", "ValidaProofs.C08Threads"], 600, 12000,
          "one case = a history of 3-8 (thorough 4-16) validate / test / get_data / filter calls over one shared schema (1-4 rules, "
          "40% casts, map-or-list parts with list / map conditions) and 1-3 shared documents, with identity-aware snapshots of "
          "every document, rule, path, part and condition after every call and each call repeated on freshly built objects; "
